@@ -32,7 +32,8 @@ def attempt(name, inp, fn):
     ncases += 1
     try:
         return fn()
-    except IndexError as e:
+    except (IndexError, SystemError) as e:
+        # inside a parallel region Numba surfaces the bounds-check IndexError as SystemError("... returned a result with an exception set")
         fails.append(dict(kernel=name, input=inp, error=repr(e)))
     except ZeroDivisionError:
         pass   # not an index error (degenerate numeric input); judged by other properties
